@@ -18,13 +18,14 @@ from vf import detloop, env, refval, xs
 
 MODE = "C13"
 TREE = 0
-NTREES = 4
+NTREES = 5
 NINP = 2
 F901 = -1
 FIXS1 = -1
 FIXS2 = -1
 FLAG2_FREE = 1
 INVALID = "[2] O [501]"
+INVALID_MORE = ("Muss ([2] U [3]) O [902]", "Muss [902] X ([3] O [2])", "X [2][901] O [902]", "Muss [501] X [901]", "Muss [1] Kann [3] O [502] U [503]")
 
 
 def _tree(t: int, inputs):
@@ -44,6 +45,10 @@ def _tree(t: int, inputs):
                  [("S", "SEG1", "X [1]", [("F", "DE1", f"X {INVALID}", i1), ("V", "DE2", [("A", f"X {INVALID}"), ("B", "X [2]"), ("C", "X [3]")], i2)])])]
     if t == 3:
         return [("G", "SG1", "Muss [1]", [], [("S", "SEG1", "Muss [2]", [("V", "DE1", [("Z01", "X [1]"), ("Z1", "X [3]")], i2), ("V", "DE2", [("Q", "X [3]"), ("Z01", "Muss [2] O [501] Soll [1]")], i2)])])]
+    if t == 4:  # further kinds of invalid expressions (format constraint or-ed with compositions, hint xor format constraint, invalid later part)
+        m = INVALID_MORE
+        return [("G", "SG1", m[0], [("G", "SG2", "Muss [1]", [], [("S", "SG2-SEG", m[1], [("F", "SG2-DE", m[4], i0)])])],
+                 [("S", "SEG1", "X [1]", [("F", "DE1", m[2], i1), ("V", "DE2", [("A", m[3]), ("B", "X [2]"), ("C", m[0])], i2)])])]
     raise xs.HarnessError("tree index")
 
 
@@ -68,7 +73,7 @@ def outcome(expr, text=None):
         tree = await parse_expression_including_unresolved_subexpressions(expr, resolve_packages=True)
         return await evaluate_ahb_expression_tree(tree)
 
-    if "O [501]" in expr:
+    if "O [501]" in expr or "INVALID:" in expr or expr in INVALID_MORE:
         return ("invalid", None)  # invalid by construction (hint or-ed with a requirement constraint): no evaluation needed
     try:
         r = detloop.run(go())
@@ -166,7 +171,7 @@ def tree_glue(s1: int, s2: int, s3: int, soll: bool, iv: int, f901: bool, flag2:
         return True
     flag2_c = bool(xs.R(flag2))
     alpha = {"1": env.STATES[s1], "2": env.STATES[s2], "3": env.STATES[s3]}
-    env.setup(rc=alpha, fc={"901": f901_c, "902": lambda text: bool(text) and len(text) > 3}, hints={"501": "Hinweis 501"}, packages={"1P": "[1] U [2]"})
+    env.setup(rc=alpha, fc={"901": f901_c, "902": lambda text: bool(text) and len(text) > 3}, hints={"501": "Hinweis 501", "502": "Hinweis 502", "503": "Hinweis 503"}, packages={"1P": "[1] U [2]"})
     spec = _tree(TREE, INP[iv])
     d = dict(s1=s1, s2=s2, s3=s3, soll=soll, iv=iv, f901=f901, flag2=flag2)
     states = {k: v.name for k, v in alpha.items()}
@@ -191,7 +196,7 @@ def tree_glue(s1: int, s2: int, s3: int, soll: bool, iv: int, f901: bool, flag2:
             return xs.fail(f"{ctx}: validation aborted with {got}", **d)
         if want is None or got[0] != "ok":
             return True  # NotImplementedError for an undetermined MUSS/prefix node is documented behaviour (C13's subject)
-        spec_k = rewrite(_tree(TREE, INP[iv]), lambda e: re.sub(r"^(Muss|X) " + re.escape(INVALID) + r"( Soll \[3\])?$", "Kann", e).replace("Muss [2] O [501] Soll [1]", "Kann"))
+        spec_k = rewrite(_tree(TREE, INP[iv]), lambda e: "Kann" if e in INVALID_MORE else re.sub(r"^(Muss|X) " + re.escape(INVALID) + r"( Soll \[3\])?$", "Kann", e).replace("Muss [2] O [501] Soll [1]", "Kann"))
         got_k = _validate(spec_k, soll_c)
         inv = {w["disc"] for w in want if w.get("invalid")}
         for w, o in zip(want, got[1]):
